@@ -1018,6 +1018,15 @@ func (st *state) rebuild(op []string) (string, string, bool) {
 	}
 	atoi := func(s string) int { v, _ := strconv.Atoi(s); return v }
 	switch op[0] {
+	case "MB":
+		if len(op) != 2 {
+			return "", "", false
+		}
+		txt, ok := unhex(op[1])
+		if !ok {
+			return "", "", false
+		}
+		return strings.Join(op, " "), runMB(txt), true
 	case "DW", "DWR":
 		if len(op) != 3 {
 			return "", "", false
@@ -1103,6 +1112,43 @@ func (st *state) rebuild(op []string) (string, string, bool) {
 	return "", "", false
 }
 
+// runMB: the number of lines of both soft-wrap scanners for s at width 100 (everything fits), and the number of
+// mandatory breaks uniseg.FirstLineSegment reports inside s (not counting the end of the text).
+func runMB(s string) string {
+	out := ""
+	g := guarded(func() {
+		ctx := drawCtx(100, 100)
+		np := 0
+		sc := text.NewSoftwrapScanner(s, 100)
+		for sc.Scan(ctx) && np < 1000 {
+			np++
+		}
+		cells := []vaxis.Cell{}
+		for _, ch := range vaxis.Characters(s) {
+			cells = append(cells, vaxis.Cell{Character: ch})
+		}
+		nr := 0
+		rs := richtext.NewSoftwrapScanner(cells, 100)
+		for rs.Scan() && nr < 1000 {
+			nr++
+		}
+		must := 0
+		rest, state := s, -1
+		for len(rest) > 0 {
+			var br bool
+			_, rest, br, state = uniseg.FirstLineSegmentInString(rest, state)
+			if br && len(rest) > 0 {
+				must++
+			}
+		}
+		out = fmt.Sprintf("plain=%d;rich=%d;must=%d", np, nr, must)
+	})
+	if g != "" {
+		return g
+	}
+	return out
+}
+
 func run(r *hx.Run) error {
 	st := &state{r: r}
 	if r.Replay != "" {
@@ -1137,6 +1183,18 @@ func run(r *hx.Run) error {
 	r.Emit("DW 2 65538", runDW(2, 65538, false))
 	r.Emit("DWR 2 65538", runDW(2, 65538, true))
 	r.Count("draw-rowwrap")
+	// round 4: mandatory breaks other than LF / CR / CRLF (classes BK and NL of UAX #14: U+2028, U+2029, U+0085, VT, FF).
+	// uniseg.FirstLineSegment must-breaks behind them, uniseg.HasTrailingLineBreak does not know them; both soft-wrap
+	// scanners are run at a width at which everything fits, so the number of lines is the number of hard breaks + 1
+	for _, b := range []string{"\n", "\r", "\r\n", "\u2028", "\u2029", "\u0085", "\v", "\f"} {
+		for _, x := range []string{"a", "ab c"} {
+			for _, y := range []string{"b", "世 d"} {
+				op := "MB " + hx.Hex(x+b+y)
+				r.Emit(op, runMB(x+b+y))
+				r.Count("mandatory-break:" + fmt.Sprintf("%q", b))
+			}
+		}
+	}
 	var rec func(prefix []int, n int)
 	buf := make([]byte, 0, 64)
 	mk := func(ix []int) string {
